@@ -575,6 +575,7 @@ Lemma prims_log_safety :
   /\ (forall w p r w', p_remove_file w p = (r, w') -> w_tr w' = mkEv ORemoveFile p (safe (w_fs w) p) :: w_tr w)
   /\ (forall w p t r w', p_symlink w p t = (r, w') -> w_tr w' = mkEv OSymlink p (safe (w_fs w) p) :: w_tr w)
   /\ (forall w p r w', p_lstat w p = (r, w') -> w_tr w' = mkEv OLstat p (safe (w_fs w) p) :: w_tr w)
+  /\ (forall w p r w', p_lstat_q w p = (r, w') -> w_tr w' = mkEv OLstatQ p (safe (w_fs w) p) :: w_tr w)
   /\ (forall w p r w', p_remove_dir w p = (r, w') -> p <> [] ->
         w_tr w' = mkEv ORemoveDir p (safe (w_fs w) p) :: w_tr w)
   /\ (forall w r w', p_remove_dir w [] = (r, w') ->
@@ -587,6 +588,7 @@ Proof.
   - now apply p_remove_file_spec in H as [H _].
   - now apply p_symlink_spec in H as [H _].
   - now apply p_lstat_spec in H as [H _].
+  - now apply p_lstat_q_spec in H as [H _].
   - apply p_remove_dir_spec in H as [H _]. now apply H.
   - apply p_remove_dir_spec in H as [_ [H _]]. now apply H.
   - cbn in H. destruct (has_child (w_fs w) []); inversion H; reflexivity.
